@@ -144,8 +144,19 @@ pub mod rust_log_ref_finder
                     let rule_ref_container_span = rule_l2.as_span();
                     let mut kvp_spans: Vec<(pest::Span, Option<pest::Span>)> = Vec::new();
 
+                    let mut first_arg_pos: Option<pest::Position> = None;
+
                     for rule in rule_l2.into_inner()
                     {
+                        /*
+                         * Remember where the first argument after any `target:` argument
+                         * starts: a new key-value pair has to be inserted there.
+                         */
+                        if first_arg_pos.is_none()
+                        {
+                            first_arg_pos = Some(rule.as_span().start_pos());
+                        }
+
                         match rule.as_rule()
                         {
                             Rule::string_literal =>
@@ -264,11 +275,15 @@ pub mod rust_log_ref_finder
                                 insertion_suffix = Some("; ".to_string());
                             }
 
-                            code_pos = Some(CodePosition::new(
-                                rule_ref_container_span.start() + 1,
-                                rule_ref_container_span.start_pos().line_col().0,
-                                rule_ref_container_span.start_pos().line_col().1 + 1,
-                            ));
+                            code_pos = match first_arg_pos
+                            {
+                                None => continue,
+                                Some(pos) => Some(CodePosition::new(
+                                    pos.pos(),
+                                    pos.line_col().0,
+                                    pos.line_col().1,
+                                )),
+                            };
                         }
                     }
                     else
